@@ -5,6 +5,7 @@
   rejected requests, disconnects at any point).
 -/
 import Hpfeeds.Lemmas.BrokerGauge
+import Hpfeeds.Lemmas.BrokerFault
 import Hpfeeds.Legacy
 namespace Hpfeeds.C19
 open Hpfeeds Hpfeeds.Broker Extracted
@@ -106,5 +107,26 @@ example : ((run exCfg (exH ++ [.data 1 [0,0,0,8,5,1,98,122], .lost 1])).gSubs (s
     (run exCfg (exH ++ [.data 1 [0,0,0,8,5,1,98,122], .lost 1])).gConns,
     (run exCfg (exH ++ [.data 1 [0,0,0,8,5,1,98,122], .lost 1])).cLost (some [98])) = (0, 0, 0, 1) := by
   decide +kernel
+
+/-! ### … also when subscribers' transports refuse writes (Model/BrokerFault.lean)
+
+A refused write makes the broker close that transport; closing moves no gauge (the counts move at `connection_lost`, as
+everywhere else).  So the three equalities hold after EVERY history with write faults — any fault set and any store
+contents per event. -/
+
+theorem gauges_under_write_faults (cfg : Cfg) (es : List (Store × List Nat × Event)) (l : Option Bytes) (ch : Bytes) :
+    (runF cfg es).gConns = cnt (runF cfg es) pReg ∧
+    ((runF cfg es).gSubs l ch = cnt (runF cfg es) (pSub l ch) ∧ 0 ≤ (runF cfg es).gSubs l ch) ∧
+    (runF cfg es).cMade = (runF cfg es).ids.length ∧
+    ((runF cfg es).cLost l : Int) = cnt (runF cfg es) (pLost l) := by
+  have g := gauge_runF cfg es
+  refine ⟨by simpa using g.conns, ⟨g.subs l ch, ?_⟩, g.made, by simpa using g.lost l⟩
+  rw [g.subs l ch]; unfold cnt; exact Int.natCast_nonneg _
+
+theorem channel_total_under_write_faults (cfg : Cfg) (es : List (Store × List Nat × Event)) (ch : Bytes)
+    (L : List (Option Bytes)) (hL : L.Nodup)
+    (hcover : ∀ c x, (runF cfg es).conn c = some x → ch ∈ x.active → x.ak ∈ L) :
+    (L.map (fun l => (runF cfg es).gSubs l ch)).sum = cnt (runF cfg es) (fun x => decide (ch ∈ x.active)) :=
+  gauge_channel_total (gauge_runF cfg es) ch L hL hcover
 
 end Hpfeeds.C19
